@@ -57,6 +57,36 @@ CHECKS = {
         'Trusted: TLC; input and output are tokenised by the real Lexer (itself checked at small scope by C02); harness '
         'classification of idempotence failures (indentation-only, line continuation, no_single_comma_function) feeds the known-findings list.',
         'DESIGN.md section 5, C16'),
+    'C12': (
+        'TLC: TestSched (main loop, FIFO job semaphore, serial barriers, timeout->kill, --maxfail cut, --repeat stop, '
+        'classification, tallies, exit status) checked over all interleavings of every small instance; TestSelect laws; '
+        'nondeterministic trace validation (TraceTestSched / TraceTestSelect) of real `meson test` CLI runs and of the real '
+        'scheduler under a virtual-time loop; TLC-simulated schedules replayed',
+        'Model checking of specs/mtest: every interleaving of every instance up to 4 tests x 2 iterations, J <= 3, maxfail <= 2 '
+        'satisfies AtMostOnce / ExactlyOnceWhenNotCut / SerialAlone / JobBound / TalliesEqualClassification / ExitNonZeroIffBad / '
+        'SlicesPartition. In addition, each recorded execution of the real code (child-written start/end log order, testlog.json '
+        'order, printed totals, exit status) is accepted only if TLC finds a behaviour of that spec producing it.',
+        'Trusted: TLC, the test script and its O_APPEND log, the projection of the logs, and the fake subprocess/virtual loop. '
+        'Concurrency claims use only child-observed intervals, so the start order of concurrently running tests is not observable '
+        'in CLI runs. Thorough ~ 9M model states plus about 10k traces.',
+        'DESIGN.md section 5, C12 and section 10'),
+    'C03': (
+        'TLC: decoders between meson\'s output and the process (Ninja $-unescape/variable scoping, POSIX sh word splitting with '
+        'metacharacter faults, gcc response-file splitting, env/exe-wrapper/pickle unwrapping) and Expected(args,pos,mode) with the '
+        'four documented rewrites; Decode(Encode(s))=s for all texts <=N over a 14-code-point alphabet; trace validation of the real '
+        'quoting functions, manifest writer, generated build.ninja/pickles in 27 positions, and of real /bin/sh, gcc and meson test '
+        'executions by TraceArgFidelity.tla',
+        'Model checking of specs/ninja ArgFidelity_MC (round-trip laws of every quoting layering, newline => pickled wrapper, algebra '
+        'of Expected) plus trace validation at three levels: (1) all texts of the model space through the real ninja_quote/quote_arg/'
+        'join_args/gcc_rsp_quote/NinjaRule._quoter/NinjaBuildElement.write, decoded by TLC; (2) generated projects with every string '
+        'in every command position, raw rule+edge text and unpickled exe/test serialisations expanded, split and compared with '
+        'Expected by TLC; (3) the same command lines run by real /bin/sh, env, meson --internal exe and meson test with an argv '
+        'dumper, which must agree with the spec decoders. Fidelity checking: TLA+ is the oracle language; the assurance comes from '
+        'exhaustive small strings in every position.',
+        'Trusted: TLC, ninja_ref (cross-checked against the TLA+ expansion on every edge), c03_raw line cutter, the C dumper, /bin/sh, '
+        'env, gcc as environment. Environment-model disagreements are exit 2. Known findings: newline refusals in compiler/linker '
+        'arguments. POSIX host only.',
+        'DESIGN.md section 5, C03 and section 10'),
 }
 
 NOT_YET = {}
